@@ -6,7 +6,11 @@ What is extracted (regenerated on every run):
     channel expressions of get_rgb / get_color  (control skeletons template-matched, holes translated);
   * DOS_DEFAULT_PALETTE, EGA_PALETTE, EGA_COLOR_OFFSETS;
   * every line printer of Palette::export_palette for Hex/Pal/Gpl/Ice/Txt: the `format!` strings are parsed and turned
-    into Gallina printers over fmt_dec / fmt_dec_w3 / fmt_hex2 (arm skeletons template-matched);
+    into Gallina printers over fmt_dec / fmt_dec_w3 / fmt_hex2 / fmt_str (arm skeletons template-matched); the text
+    arguments of each `format!` call are parsed too: `self.title` prints the text as it is, `single_line(&self.title)`
+    prints `single_line title`;
+  * `single_line` (the line-break replacement applied to title / author / description / colour names): the set of
+    replaced characters and the replacement text of its `str::replace` call;
   * the magic first lines and comment characters of Palette::load_palette;
   * the regular expressions of the loaders are compared with the ones the hand-written matchers of
     Model/PaletteFiles.v implement (any other regex is a TranslateError: the tie is gone);
@@ -158,29 +162,47 @@ self . colors . push ( color ) ;
 HEAD = 'let mut res = String :: new ( ) ;\n'
 TAIL = 'return res . as_bytes ( ) . to_vec ( ) ;\n'
 def push_fmt(hole, args): return 'res . push_str ( format ! ( %s , %s ) . as_str ( ) ) ;\n' % (hole, args)
-META = (push_fmt('$FT', 'self . title') + push_fmt('$FA', 'self . author') + push_fmt('$FD', 'self . description')
+# $AT / $AA / $AD / $AC / $AM: the text argument of the call, parsed by text_arg (verbatim or through single_line)
+META = (push_fmt('$FT', '$AT') + push_fmt('$FA', '$AA') + push_fmt('$FD', '$AD')
         + push_fmt('$FN', 'self . colors . len ( )'))
+SINGLE_LINE_SIG = 'fn single_line ( text : & str ) -> String'
+SINGLE_LINE_T = 'text . replace ( [ $CHARS ] , $TO )'
 EXPORT_T = {
     'Hex': HEAD + 'for c in & self . colors { ' + push_fmt('$FC', 'c . r , c . g , c . b') + '}\n' + TAIL,
     'Pal': HEAD + 'res . push_str ( $L0 ) ;\nres . push_str ( $L1 ) ;\n' + push_fmt('$FN', 'self . colors . len ( )')
            + 'for c in & self . colors { ' + push_fmt('$FC', 'c . r , c . g , c . b') + '}\n' + TAIL,
     'Gpl': HEAD + 'res . push_str ( $L0 ) ;\n' + META
-           + 'for c in & self . colors { ' + push_fmt('$FC', 'c . r , c . g , c . b , self . description') + '}\n' + TAIL,
+           + 'for c in & self . colors { ' + push_fmt('$FC', 'c . r , c . g , c . b , $AC') + '}\n' + TAIL,
     'Ice': HEAD + 'res . push_str ( $L0 ) ;\n' + META
            + 'for c in & self . colors { if let Some ( name ) = c . name . as_ref ( ) { res . push_str ( format ! ( $FM ) . as_str ( ) ) ; } '
            + push_fmt('$FC', 'c . r , c . g , c . b') + '}\n' + TAIL,
     'Txt': HEAD + 'res . push_str ( $L0 ) ;\n' + META
            + 'for c in & self . colors { ' + push_fmt('$FC', 'c . r , c . g , c . b ,') + '}\n' + TAIL,
 }
-# hole -> (coq parameter list, positional argument names with their kinds)
-FMT_ARGS = {
-    'FT': [('title', 'str')], 'FA': [('author', 'str')], 'FD': [('description', 'str')], 'FN': [('len', 'num')],
-    'FM': [],   # `{name}` is an inline argument
-}
-COLOR_ARGS = {'Hex': [('r', 'num'), ('g', 'num'), ('b', 'num')], 'Pal': [('r', 'num'), ('g', 'num'), ('b', 'num')],
-              'Gpl': [('r', 'num'), ('g', 'num'), ('b', 'num'), ('description', 'str')],
-              'Ice': [('r', 'num'), ('g', 'num'), ('b', 'num')], 'Txt': [('r', 'num'), ('g', 'num'), ('b', 'num')]}
-SPEC_FN = {('', 'num'): 'fmt_dec', ('3', 'num'): 'fmt_dec_w3', ('02x', 'num'): 'fmt_hex2', ('', 'str'): 'fmt_str'}
+# format hole -> (argument hole, the text the call must print)
+TEXT_HOLES = {'FT': ('AT', 'title'), 'FA': ('AA', 'author'), 'FD': ('AD', 'description')}
+RGB_ARGS = [('r', 'num'), ('g', 'num'), ('b', 'num')]
+# argument kinds: num = unsigned integer; str = a String printed as it is; sstr = a String passed through single_line
+SPEC_FN = {('', 'num'): 'fmt_dec', ('3', 'num'): 'fmt_dec_w3', ('02x', 'num'): 'fmt_hex2', ('', 'str'): 'fmt_str', ('', 'sstr'): 'fmt_str'}
+
+def text_arg(toks, field, what, local=False):
+    """the text argument of a `format!` call: `self.<field>` (or the local `<field>`) -> (field, 'str');
+    `single_line(&self.<field>)` (or `single_line(<field>)`) -> (field, 'sstr')"""
+    t = norm_text(toks)
+    plain = field if local else 'self . ' + field
+    if t == plain: return (field, 'str')
+    if t == 'single_line ( %s%s )' % ('' if local else '& ', plain): return (field, 'sstr')
+    raise TranslateError('%s: the text argument is `%s`; expected `%s`, verbatim or through single_line' % (what, t, plain))
+
+def split_top(toks):
+    """split a token run at its top-level commas"""
+    parts = [[]]; depth = 0
+    for t in toks:
+        if t[0] == 'p' and t[1] in '([{': depth += 1
+        if t[0] == 'p' and t[1] in ')]}': depth -= 1
+        if depth == 0 and t[1] == ',' and t[0] == 'p': parts.append([])
+        else: parts[-1].append(t)
+    return parts
 
 def printer(name, fmt, args, inline=None):
     """format string + positional args -> Gallina definition text"""
@@ -200,7 +222,7 @@ def printer(name, fmt, args, inline=None):
             arg = args[k]; k += 1
         fn = SPEC_FN.get((spec, arg[1]))
         if fn is None: raise TranslateError('%s: format spec {:%s} on a %s argument is outside the translated subset' % (name, spec, arg[1]))
-        pieces.append('%s %s' % (fn, arg[0]))
+        pieces.append('%s (single_line %s)' % (fn, arg[0]) if arg[1] == 'sstr' else '%s %s' % (fn, arg[0]))
     if '{' in fmt[pos:] or '}' in fmt[pos:]: raise TranslateError('%s: unparsed braces in %r' % (name, fmt))
     if k != len(args): raise TranslateError('%s: %d arguments but %d placeholders in %r' % (name, len(args), k, fmt))
     if fmt[pos:]: pieces.append(coq_str(fmt[pos:]))
@@ -315,6 +337,28 @@ def generate(repo):
         ty, val = src.find_const(const)
         if norm_text(ty) != '[ Color ; %d ]' % n: raise TranslateError('%s type changed' % const)
         out.append('Definition %s : list (N * N * N) := %s.' % (const, coq_rgbs(parse_colors(val, const))))
+    # ---- single_line: `text.replace([chars…], "to")` -----------------------------------------------------
+    out.append('')
+    try:
+        sig, body = src.find_fn('single_line')
+    except TranslateError:
+        sig = None
+    if sig is None:
+        # no sanitising step in the source: the exporters can only print texts verbatim (text_arg rejects any other call)
+        out.append('(* the source has no fn single_line *)')
+        out.append('Definition single_line (text : list N) : list N := text.')
+    else:
+        if norm_text(sig) != SINGLE_LINE_SIG: raise TranslateError('single_line signature changed: %s' % norm_text(sig))
+        h = match_template(SINGLE_LINE_T, body)
+        chars = []
+        for part in split_top(h['CHARS']):
+            if len(part) != 1 or part[0][0] != 'char': raise TranslateError('single_line: the pattern is not an array of char literals')
+            chars.append(parse_num(part[0]))
+        if len(h['TO']) != 1: raise TranslateError('single_line: the replacement is not a string literal')
+        out.append('(* fn single_line(text: &str) -> String { text.replace([chars], to) }: every occurrence of one of the characters is replaced *)')
+        out.append('Definition single_line_chars : list N := %s.' % coq_list(chars))
+        out.append('Definition single_line_to : list N := %s.' % coq_str(decode_str(h['TO'][0])))
+        out.append('Definition single_line (text : list N) : list N := str_replace_chars single_line_chars single_line_to text.')
     # ---- exporters -----------------------------------------------------------------------------------
     sig, body = src.find_fn('export_palette', within=impl)
     arms = match_arms(body, 'export_palette')
@@ -325,10 +369,25 @@ def generate(repo):
         lo = fmt.lower()
         for k in ('L0', 'L1'):
             if k in h: out.append('Definition exp_%s_%s : list N := %s.' % (lo, k.lower(), coq_str(decode_str(h[k][0]))))
-        for k, nm in (('FT', 'title'), ('FA', 'author'), ('FD', 'description'), ('FN', 'count')):
-            if k in h: out.append(printer('exp_%s_%s' % (lo, nm), decode_str(h[k][0]), FMT_ARGS[k]))
-        if 'FM' in h: out.append(printer('exp_%s_name' % lo, decode_str(h['FM'][0]), [], inline={'name': 'str'}))
-        out.append(printer('exp_%s_color' % lo, decode_str(h['FC'][0]), COLOR_ARGS[fmt]))
+        def emit(name, fmts, args, inline=None):
+            """the printer of the call as written; when a text goes through single_line, also `<name>_verbatim`:
+            the same format string on the text as it is (what the call printed before the sanitising step existed;
+            used for the witness of the fixed finding and for `export_unchanged_without_breaks`)"""
+            out.append(printer(name, fmts, args, inline))
+            if any(k == 'sstr' for _, k in args):
+                out.append(printer(name + '_verbatim', fmts, [(a, 'str' if k == 'sstr' else k) for a, k in args], inline))
+        for k, nm in (('FT', 'title'), ('FA', 'author'), ('FD', 'description')):
+            if k in h: emit('exp_%s_%s' % (lo, nm), decode_str(h[k][0]), [text_arg(h[TEXT_HOLES[k][0]], TEXT_HOLES[k][1], 'export_palette %s %s line' % (fmt, nm))])
+        if 'FN' in h: emit('exp_%s_count' % lo, decode_str(h['FN'][0]), [('len', 'num')])
+        if 'FM' in h:
+            parts = split_top(h['FM'])
+            if len(parts) == 1: emit('exp_%s_name' % lo, decode_str(parts[0][0]), [], inline={'name': 'str'})     # `{name}` inline
+            elif len(parts) == 2 and len(parts[0]) == 1:
+                emit('exp_%s_name' % lo, decode_str(parts[0][0]), [text_arg(parts[1], 'name', 'export_palette %s colour name line' % fmt, local=True)])
+            else: raise TranslateError('export_palette %s: colour name line has an unexpected argument list' % fmt)
+        cargs = list(RGB_ARGS)
+        if 'AC' in h: cargs.append(text_arg(h['AC'], 'description', 'export_palette %s colour line' % fmt))
+        emit('exp_%s_color' % lo, decode_str(h['FC'][0]), cargs)
     # ---- loaders: magic lines and comment characters ---------------------------------------------
     sig, body = src.find_fn('load_palette', within=impl)
     larms = match_arms(body, 'load_palette')
